@@ -116,6 +116,19 @@ CHECKS = {
         note="Trusted: Lean kernel; axioms propext/Quot.sound/Classical.choice; OS file system / process spawning / serde_json (inputs, observed by the "
              "harness); model + harness. Known finding: the stub log is lossy for non-UTF-8 octets.",
         technique="Lean 4 proof (composition of C03 and C05; small lemmas on the sink models) + differential correspondence sync vs async vs model"),
+    "C10": dict(
+        category="proof",
+        text="Lean theorems: crlf_no_bare_lf, crlf_idempotent, auto_range, sevenbit_ok and sevenbit_requested_ok (when 7bit is chosen or "
+             "accepted the output is ASCII without NUL, CR/LF only as CRLF, lines within 998), roundtrip_identity, roundtrip_base64 (a "
+             "reader ignoring line breaks recovers the octets: proved through a base64 inverse and chunking lemmas), refusal_matrix. The "
+             "quoted-printable round trip and line rules are not proved yet (full statements recorded in Props/C10.lean); for them the tie "
+             "is the correspondence check: an RFC 2045 decoder written independently is applied to every real encoder output. "
+             "Correspondence: exhaustive strings over a 9-symbol alphabet x String/Vec<u8> x 6 requested encodings, line lengths around "
+             "76 and 998, escape ratios around 1/3, sizes to 64 KiB / 1 MiB, through Body and SinglePart.",
+        design_ref="DESIGN.md 5 C10",
+        note="Trusted: Lean kernel; axioms propext/Quot.sound/Classical.choice; Spec/BodyDec.lean as the reading of RFC 2045 6.7/6.8; model + harness. "
+             "Not yet proved: qp_roundtrip / qp_lines (checked by the decoder on real outputs only).",
+        technique="Lean 4 proof (invariants over the chooser / CRLF conversion / base64 chunking) + exhaustive/sampled correspondence with independent decoders"),
 }
 
 NOT_APPLICABLE = {
